@@ -204,7 +204,8 @@ struct DecCase {
 /// Returns (messages and the first error in order, number of `None`s seen, stalled?, number of
 /// messages that arrived only AFTER a `None`).
 fn drive<T>(mut s: Streaming<T>, ser: impl Fn(&T) -> Vec<u8>) -> (Vec<Result<Vec<u8>, String>>, u32, bool) {
-    let mut cx = Context::from_waker(Waker::noop());
+    let (waker, wakes) = crate::env::counting_waker();
+    let mut cx = Context::from_waker(&waker);
     let mut out = vec![];
     let mut ends = 0;
     let mut polls = 0;
@@ -213,7 +214,11 @@ fn drive<T>(mut s: Streaming<T>, ser: impl Fn(&T) -> Vec<u8>) -> (Vec<Result<Vec
         if polls > 100_000 {
             return (out, ends, true);
         }
+        let before = wakes.0.load(std::sync::atomic::Ordering::SeqCst);
         match Pin::new(&mut s).poll_next(&mut cx) {
+            // `Pending` without a wake-up: nothing would ever poll this stream again (every scripted
+            // body wakes its caller before it answers `Pending`)
+            Poll::Pending if wakes.0.load(std::sync::atomic::Ordering::SeqCst) == before => return (out, ends, true),
             Poll::Pending => continue,
             Poll::Ready(Some(Ok(m))) => {
                 if ends > 0 {
